@@ -18,6 +18,8 @@ comma-separated; sections of a line are separated by ` | `.
         -> V=<f> x=<v> y=<v>
   scale <k> <eps> <F> <V> <Fl> <Fh> | x | lnK | mol | z
         -> scaled=ok | scaled=BAD
+  lever <X> <Xbubble> <Xdew> <mol>           (single chemical, H or S specified: leverV + chemSplit)
+        -> lv=<f> gv=<f>
   chem <T> <P> <Tc> <psat> <mol> <l0> <g0>
         -> l=<f> g=<f>
 -/
@@ -196,6 +198,12 @@ def step (st : Unit) (line : String) : Unit × String :=
                && allF n (fun i => fabs (v2 i - k * v1 i) ≤ 1e-12 * (fabs (k * v1 i) + 1e-300))
         if ok then "scaled=ok" else "scaled=BAD"
       | _, _, _, _, _ => "bad-op"
+    | ["lever", X, Xb, Xd, mol] :: [] =>
+      match floats [X, Xb, Xd, mol] with
+      | some [X, Xb, Xd, mol] =>
+        let (l, g) := chemSplit mol (leverV X Xb Xd)
+        s!"lv={showFloat l} gv={showFloat g}"
+      | _ => "bad-op"
     | ["chem", T, P, Tc, psat, mol, l0, g0] :: [] =>
       match floats [T, P, Tc, psat, mol, l0, g0] with
       | some [T, P, Tc, psat, mol, l0, g0] =>
